@@ -282,43 +282,57 @@ def check_shared_visited(facts, rep):
 
 
 def check_exhaustive_sweep(facts, rep):
-    """T9: the orientation sweep of crossing_signs tries *every* crossing as a start: the loop `for i0 in 0..n` of the
+    """T9: the sweeps of crossing_signs and of components try *every* crossing as a start: the loop `for i0 in 0..n` of the
     sweep closure can only be left through the exhausted range (an already-visited start edge skips that crossing,
-    it must not end the sweep - components whose first under-crossing comes later would be walked by the fallback
-    pass in the wrong direction), and the range is 0 .. number of crossings."""
+    it must not end the sweep - components whose first crossing comes later would be walked by a fallback pass in the
+    wrong direction, resp. be missing from the component list), the range is 0 .. number of crossings, and the sweep is
+    run for the start positions [0] then [1, 2] (signs) resp. [0, 1, 2] (components)."""
     import cfgutil
     from symex import SymEx
-    root = 'yui_link::link::link::Link::crossing_signs'
-    cl = [b for k, b in facts.bodies.items() if k.startswith(root + '::{closure') and k.count('{closure') == 1]
-    sweeps = []
-    for b in cl:
-        loops = cfgutil.for_loops(b)
-        if any((c.callee or '').endswith('traverse_edges') for c in b.calls()) and loops:
-            sweeps.append((b, loops))
-    if len(sweeps) != 1:
-        rep.indet('E7.T9: %d sweep closures with a start-crossing loop in crossing_signs' % len(sweeps))
-        return
-    b, loops = sweeps[0]
-    rep.saw(b)
-    inst = 'crossing_signs|the start-crossing loop is left only when all crossings were tried'
-    bad = []
-    for (I, N, some, none) in loops:
-        ex = cfgutil.early_exits(b, N, some)
-        if ex:
-            line = min((b.blocks[x]['term'].get('line', 0) for x in cfgutil.reach_without(b, some, {N}) if b.blocks[x]['term']['k'] == 'goto' and b.blocks[x]['term']['target'] in ex), default=0)
-            bad.append('the loop at bb%d can reach the return without exhausting its range (a `break` / `return` in the body)' % N)
-    rng = set()
-    for p in SymEx(b, havoc_loops=True, max_paths=5000).run():
-        for e in p.calls():
-            if e.name.endswith('into_iter') and e.args:
-                rng.add(re.sub(r'\^_ref__', '^', sk(e.args[0])))
-    if rng != {'Range::Range{start: 0, end: **arg1.^n}'}:
-        rep.indet('E7.T9: start-crossing range is %s' % sorted(rng))
-        return
-    if bad:
-        rep.violation('E7.T9-exhaustive-sweep', inst, 'Link::crossing_signs: ' + '; '.join(bad) + ': the sweep stops at the first crossing whose start edge was already visited, later components are left to the fallback pass and can be walked against their orientation (signs depend on the crossing order)', where=b.where())
-    else:
-        rep.ok('E7.T9-exhaustive-sweep', inst, 'for i0 in 0..n, exits only through next() == None')
+    for fn, want_pos in (('crossing_signs', {'[1, 2]'}), ('components', {'[0, 1, 2]'})):
+        root = 'yui_link::link::link::Link::' + fn
+        cl = [b for k, b in facts.bodies.items() if k.startswith(root + '::{closure') and k.count('{closure') == 1]
+        sweeps = []
+        for b in cl:
+            loops = cfgutil.for_loops(b)
+            if any((c.callee or '').endswith('traverse_edges') for c in b.calls()) and loops:
+                sweeps.append((b, loops))
+        if len(sweeps) != 1:
+            rep.indet('E7.T9: %d sweep closures with a start-crossing loop in %s' % (len(sweeps), fn))
+            continue
+        b, loops = sweeps[0]
+        rep.saw(b)
+        inst = '%s|the start-crossing loop is left only when all crossings were tried' % fn
+        bad = []
+        for (I, N, some, none) in loops:
+            if cfgutil.early_exits(b, N, some):
+                bad.append('the loop at bb%d can reach the return without exhausting its range (a `break` / `return` in the body)' % N)
+        rng = set()
+        for p in SymEx(b, havoc_loops=True, max_paths=5000).run():
+            for e in p.calls():
+                if e.name.endswith('into_iter') and e.args and sk(e.args[0]).startswith('Range'):
+                    rng.add(re.sub(r'\^_ref__', '^', sk(e.args[0])))
+        if rng != {'Range::Range{start: 0, end: **arg1.^n}'}:
+            rep.indet('E7.T9: start-crossing range of %s is %s' % (fn, sorted(rng)))
+            continue
+        # the parent: n = number of crossings, positions swept
+        pb = facts.bodies.get(root)
+        pos = set()
+        n_def = set()
+        if pb is not None:
+            for p in SymEx(pb, havoc_loops=True, max_paths=5000).run():
+                for e in p.calls():
+                    if e.name.endswith('into_iter') and e.args and sk(e.args[0]).startswith('['):
+                        pos.add(sk(e.args[0]))
+                    if e.name.split('::')[-1] == 'len' and e.args and 'arg1.data' in sk(e.args[0]):
+                        n_def.add('len(data)')
+        if pos != want_pos or n_def != {'len(data)'}:
+            rep.indet('E7.T9: %s sweeps the start positions %s with n from %s' % (fn, sorted(pos), sorted(n_def)))
+            continue
+        if bad:
+            rep.violation('E7.T9-exhaustive-sweep', inst, 'Link::%s: ' % fn + '; '.join(bad) + ': the sweep stops at the first crossing whose start edge was already visited, later components are left to the fallback pass (walked against their orientation: signs depend on the crossing order) or are lost', where=b.where())
+        else:
+            rep.ok('E7.T9-exhaustive-sweep', inst, 'for i0 in 0..n, exits only through next() == None; positions %s' % sorted(pos))
 
 
 def selftest(T, rep):
